@@ -19,6 +19,7 @@ import (
 	"strconv"
 	"strings"
 	"sync"
+	"sync/atomic"
 	"testing/synctest"
 	"time"
 )
@@ -64,6 +65,13 @@ type Exec struct {
 
 var cur *Exec
 
+// freeRunning is set by harnesses that run their bodies without the explorer
+// (the separate race-detector pass); guards of PointIf are then polled.
+var freeRunning atomic.Bool
+
+// SetFreeRunning switches the polling fallback of PointIf on or off.
+func SetFreeRunning(on bool) { freeRunning.Store(on) }
+
 func goid() uint64 {
 	var buf [64]byte
 	n := runtime.Stack(buf[:], false)
@@ -108,6 +116,12 @@ func PointIf(kind string, enabled func() bool) { pointIf(kind, enabled, 3) }
 func pointIf(kind string, enabled func() bool, skip int) {
 	x := cur
 	if x == nil || x.off {
+		if x == nil && enabled != nil && freeRunning.Load() {
+			// free-running mode: no explorer, so wait for the guard ourselves
+			for !enabled() && freeRunning.Load() {
+				time.Sleep(20 * time.Microsecond)
+			}
+		}
 		return
 	}
 	pointLabel(kind+"@"+site(skip), enabled)
@@ -152,6 +166,11 @@ func Poke() {
 
 // Go starts a named harness thread.
 func (x *Exec) Go(name string, f func()) {
+	if x == nil {
+		// free-running mode (race-detector pass): an ordinary goroutine
+		go f()
+		return
+	}
 	started := make(chan struct{})
 	go func() {
 		x.mu.Lock()
